@@ -7,4 +7,19 @@ open Lnc.Facts Lnc.Mailbox.Record
 theorem framing : mb_macSize = some macSize ∧ mb_encHeaderSize = some hdrLen := by decide
 theorem record_reads_full : reads_ReadHeader = ["full"] ∧ reads_ReadBody = ["full"] := by decide
 
+/-- **an authentication failure is latched by both readers** (the model's
+    `failed` flag): ReadHeader and ReadBody refuse to work once `readAuthErr` is
+    set, and each sets it when its decrypt fails -/
+theorem auth_error_latched_in_both_readers :
+    skel_Machine_ReadHeader.take 3 = ["if", "cond:b.readAuthErr != nil", "return"] ∧
+    skel_Machine_ReadBody.take 3 = ["if", "cond:b.readAuthErr != nil", "return"] ∧
+    skel_Machine_ReadHeader.idxOf "call:b.recvCipher.Decrypt" < skel_Machine_ReadHeader.idxOf "assign:b.readAuthErr" ∧
+    skel_Machine_ReadBody.idxOf "call:b.recvCipher.Decrypt" < skel_Machine_ReadBody.idxOf "assign:b.readAuthErr" ∧
+    skel_Machine_ReadHeader.contains "assign:b.readAuthErr" = true ∧
+    skel_Machine_ReadBody.contains "assign:b.readAuthErr" = true := by decide
+
+/-- the latch lives in the Machine, not in the cipher state that a key rotation re-initialises -/
+theorem rotation_does_not_touch_the_latch :
+    skel_cipherState_InitializeKey = ["assign:c.secretKey", "assign:c.nonce", "assign:c.cipher", "call:chacha20poly1305.New"] := by decide
+
 end Lnc.Inst.C02
